@@ -161,9 +161,28 @@ for idx, v in enumerate(VALUES):
         if "payload" in upd:
             failures.append({"class": "key-rewritten-with-equal-content-reported-as-updated", "value": repr(v)[:200]})
 
+# ---- created_keys / updated_keys against the set-difference definition, exhaustively over small contexts whose values include
+#      None and other falsy values (a key present with value None is PRESENT) ---------------------------------------------------
+import itertools as _it
+ABSENT = object()
+STATES = [ABSENT, None, 0, 1, "", "x", [1], False]
+for (pa, qa), (pb, qb) in _it.product(_it.product(STATES, repeat=2), repeat=2):
+    pre = {k: v for k, v in (("a", pa), ("b", pb), ("keep", 7)) if v is not ABSENT}
+    post = {k: v for k, v in (("a", qa), ("b", qb), ("keep", 7)) if v is not ABSENT}
+    evaluations += 1
+    delta = DeltaCollector(enable_hash=False, enable_repr=False).compute(dict(pre), dict(post), [])
+    want_created = sorted(set(post) - set(pre))
+    want_updated = sorted(k for k in set(post) & set(pre) if not (type(pre[k]) is type(post[k]) and pre[k] == post[k]) and not (pre[k] == post[k]))
+    got_created, got_updated = list(delta.get("created_keys", [])), list(delta.get("updated_keys", []))
+    if got_created != want_created or got_updated != want_updated:
+        failures.append({"class": "created/updated-keys-differ-from-the-before/after-difference", "pre": repr(pre), "post": repr(post),
+                         "got": {"created": got_created, "updated": got_updated}, "want": {"created": want_created, "updated": want_updated}})
+        break
+distinct.add(("delta-exhaustive", len(STATES)))
+
 import shutil
 shutil.rmtree(tmp, ignore_errors=True)
-print(json.dumps({"bound": "3 processors (source with a default, operation with a required parameter, operation with required + defaulted parameter) x every placement of each parameter in {configuration, context, neither}",
+print(json.dumps({"bound": "delta: 2 keys x 8 before-states x 8 after-states (absent, None, 0, 1, '', 'x', [1], False) exhaustively; 3 processors (source with a default, operation with a required parameter, operation with required + defaulted parameter) x every placement of each parameter in {configuration, context, neither}",
                   "evaluations": evaluations, "distinct_nontrivial": len(distinct),
                   "rule": "distinct = (processor, placement vector) of runs that resolved; SER of the last node read back from the JSONL trace",
                   "failures": failures[:40], "samples": samples}, default=str))
